@@ -22,6 +22,9 @@ CHECKS = {
  "C05": dict(tech="exhaustive single-fault sweep (length class x position x 256 byte values) + multi-fault texts against a table model, every encoder arm",
    text="Runtime monitoring with an exhaustive sub-space: every byte value at every position of every length class 0..70, 95..97, 127..129 through all encoder arms and API variants, judged by a table model (accept iff in alphabet, symbols, round trip, first offender).",
    note="exhaustive only for single faults in the listed length classes; multi-fault texts are sampled; NEON not covered", ref="DESIGN.md section 3 C05"),
+ "C06": dict(engine="lmverif+sanitizers", tech="compiler sanitizer + memory checkers observing a sharded in-contract workload: AddressSanitizer (unoptimised build), valgrind memcheck (optimised build), Miri with Tree Borrows (generic arm), dev-profile alignment / overflow assertions, signals",
+   text="Sanitizer-based runtime monitoring: an in-contract workload over the whole safe API (every arm, exact-capacity inputs, every length residue where the AVX2 transpose path is taken, cloned / exact-capacity / reallocating buffers, row sub-ranges, scanner, sampler, dense-matrix histories) runs in short shards under AddressSanitizer (opt-level 0 so that dead out-of-bounds loads survive) and valgrind memcheck; thorough adds the dev-profile build (debug_assert alignment checks, rustc misaligned-pointer checks), 32 valgrind shards and Miri with Tree Borrows on the sub-surface it can interpret. Reports are de-duplicated by (kind, first library frame).",
+   note="a clean run means no report on the executed operations, not memory safety: red-zone tools miss far / intra-object overflows; Miri cannot execute the _mm_sfence kernels (SIMD score / stripe), NEON not covered; Miri out-of-bounds pointer arithmetic without a dereference is logged as a diagnostic, not a verdict", ref="DESIGN.md section 3 C06"),
  "C07": dict(tech="scalar-fold oracle over synthetic and real score matrices, every max/argmax/threshold arm incl. forced dispatch arms",
    text="Runtime monitoring: score matrices of all row classes (0 .. 65536 rows) and value families (all-negative, planted maxima in every column, duplicates, infinities), in fresh and reused buffers, through every arm; max, argmax, threshold sets and cross-arm agreement judged by a scalar fold; real scorings check the -inf padding cells.",
    note="NaN-free matrices only (as the property states); NEON not covered", ref="DESIGN.md section 3 C07"),
@@ -52,6 +55,12 @@ CHECKS = {
  "C16": dict(tech="online trace checker recomputing the sampler state from the dataset after every step; twin-run determinism check; per forced dispatcher arm",
    text="Runtime monitoring of sampling traces: after construction and after every step the count matrix, background, starts and the iteration's hold-out counts are recomputed from the linear sequences; twin runs must be identical.",
    note="seeds >= 2 in zero-or-one mode and >= 2 sequences (fewer divide by an empty background by construction)", ref="DESIGN.md section 3 C16"),
+ "C17": dict(engine="python-monitors", tech="Python-level reference-model monitor (pure-Python float64 definitions + exact enumeration) driving the extension module built from the current tree, backends forced through the hook",
+   text="Runtime monitoring through CPython: generated scenarios (create / normalize / log_odds with backgrounds and bases / calculate under forced backends incl. reuse of one striped sequence with motifs of many widths / scan / pvalue and score with both methods incl. reverse complements taken after a distribution was cached / load through paths, BytesIO and short-read file objects / error paths) are compared with pure-Python float64 definitions; PanicException is a violation.",
+   note="system CPython 3.11; the reference definitions in py/refmodel.py are trusted; scanner completeness is judged on the AVX2 / auto arms only (generic-arm wrap is the open finding of C02/C08)", ref="DESIGN.md section 3 C17"),
+ "C18": dict(engine="python-monitors", tech="sequence- and buffer-protocol monitor: every index class, every element read through (shape, strides) on the raw storage, address-based liveness check of previously exported views; valgrind pass in thorough",
+   text="Runtime monitoring through CPython: for every exported class and many sizes, len() and obj[i] over valid, negative, out-of-range and huge indices are compared with the logical model; memoryview format / shape / strides are checked and every element is read through them from the raw storage; views taken before the object is reused for scoring are checked against the object's current storage (address comparison via PyObject_GetBuffer); thorough re-runs under valgrind.",
+   note="one open known finding (memoryview left dangling when calculate() reallocates); system CPython 3.11", ref="DESIGN.md section 3 C18"),
  "C19": dict(tech="model-based monitor (Vec<Vec<T>> model) of random operation histories, alignment and stride invariants asserted after every op",
    text="Runtime monitoring: random operation histories on DenseMatrix<T,C> for 4 element types x 7 column counts against a Vec<Vec<T>> model; contents, iteration order, equality semantics, row alignment and stride checked after every operation.",
    note="x86_64 alignment (32 bytes) only", ref="DESIGN.md section 3 C19"),
@@ -90,6 +99,10 @@ def main():
         engines=[
             dict(name="lmverif", path="harness/", serves_properties=sorted(p for p in CHECKS if CHECKS[p].get("engine", "lmverif") == "lmverif"),
                  kind_free_text="Rust monitor binary: workload generators + reference models + online checkers, one sub-command per property; built in release / debug / ASan / Miri variants by ./check"),
+            dict(name="lmverif+sanitizers", path="harness/src/memsafe.rs + lib/plans.py", serves_properties=["C06"],
+                 kind_free_text="the same binary run in shards under AddressSanitizer, valgrind memcheck, Miri and the dev profile; lib/plans.py parses and de-duplicates the tool reports"),
+            dict(name="python-monitors", path="py/ + pyharness/", serves_properties=["C17", "C18"],
+                 kind_free_text="pyharness/ builds an extension module containing /repo/lightmotif-py's module plus monitor helpers (backend override, raw buffer info); py/monitor_c17.py and py/monitor_c18.py drive it from the system CPython against py/refmodel.py"),
         ],
         checks=checks,
         notes="Runtime monitoring and sanitizers only. Exit codes of ./check: 0 held, 1 violation (VIOLATION line), 2 inconclusive (INCONCLUSIVE line). Genuine defects repaired in /repo by `fix:` commits and the open ones are listed in known_findings.json.",
